@@ -20,7 +20,7 @@ RULE = ('multi-segment multi-chunk model files with several channels; non-trivia
 ASSUMPTIONS = ['"constant number of bytes per segment touched" = the 4-byte segment tag the reader verifies before reading a segment',
                'an empty request may touch at most the one chunk containing its offset']
 REQUIRED = ['requests', 'reads_checked', 'cached_index_checked', 'bytes_allowed', 'requests_partial']
-N = {'quick': 250, 'thorough': 15000}
+N = {'quick': 800, 'thorough': 15000}
 
 
 def gen_cases(tier, seed):
@@ -83,6 +83,7 @@ def run_case(case, ctx):
             ch = tf[g][c]
             n = len(ch)
             table = chunk_table(segs, lay, p)
+            ctx.evaluation()
             if n == 0 or not table:
                 continue
             shared = any(len(s.data_objects()) > 1 for s in segs if any(pp == p for pp, _ in s.data_objects()))
